@@ -66,7 +66,8 @@ impl BFlavor for purl::PackageType {
 
 pub const UNIVERSE: [&str; 19] = ["", "a", "B", "/", "a/b", "/a//b/", ".", "../x", "a@b", "a?b#c", "a&b=c", "%41", "100%", " ", "é", "\u{1}", "+", "A--b", "a/.../b"];
 pub const QVALUES: [&str; 6] = ["", "a", "a&b=c", "%41", "é", " +"];
-pub const CVALUES: [&str; 5] = ["a:00", "B:ff,a:0A", "a:0", "zz", ""];
+// (well-formed, non-canonical, odd hex, no colon, empty, and lists with an empty piece: trailing / leading / doubled comma)
+pub const CVALUES: [&str; 8] = ["a:00", "B:ff,a:0A", "a:0", "zz", "", "a:00,", ",a:00", "a:00,,b:11"];
 
 #[derive(Clone, Debug, PartialEq)]
 pub enum BAct {
@@ -309,6 +310,12 @@ impl<T: BFlavor> BModel<T> {
         for (k, v) in [("type", "jar"), ("type", "pom"), ("classifier", ""), ("classifier", "sources"), ("platform", "ruby"), ("arch", "")] {
             acts.push(BAct::Qual(k.to_owned(), v.to_owned()));
         }
+        // two ordinary keys that sort before `checksum` (so that a checksum is the LAST of three and an
+        // earlier one can be removed again)
+        acts.push(BAct::Qual("arch".to_owned(), "x86".to_owned()));
+        acts.push(BAct::Qual("bits".to_owned(), "64".to_owned()));
+        acts.push(BAct::NoQual("arch".to_owned()));
+        acts.push(BAct::NoQual("BITS".to_owned()));
         acts.push(BAct::TypedCustom(Some("x".to_owned())));
         acts.push(BAct::TypedCustom(None));
         acts.push(BAct::NoQual("BUILD_TAG".to_owned()));
@@ -359,6 +366,9 @@ impl<T: BFlavor> BModel<T> {
             q("CheckSum", "a:00"),
             q("type", "jar"),
             q("classifier", ""),
+            q("arch", "x86"),
+            q("bits", "64"),
+            BAct::NoQual("arch".into()),
             q("repository_url", "https://repo.maven.apache.org/maven2"),
             q("k_", "1"),
             q("KZ", "2"),
